@@ -273,22 +273,30 @@ class System:
         edges = tuple(
             sorted((str(k), mid(v["matrix"]), v.get("geometry")) for k, v in f.edge_data.items())
         )
-        # hash memo: absent / valid / stale; and whether the cache would survive the next verify
-        memo = getattr(f, "_hash", None)
-        f._hash = None
-        true = hash(f)
-        f._hash = memo
-        memo_state = "none" if memo is None else ("ok" if memo == true else "STALE")
-        effective = true if memo is None else memo
-        # entries that will actually be served: none if the cache is flushed on next access
-        live = g._cache.id_current == effective
+        # hash memo: absent / valid / stale; and whether the cache would survive the next verify.
+        # These are private fields known by name; if a refactor moved them the whole private state is
+        # digested generically instead (finer, never coarser).
+        try:
+            memo = getattr(f, "_hash", None)  # the attribute only exists after the first hash
+            f._hash = None
+            true = hash(f)
+            f._hash = memo
+            memo_state = "none" if memo is None else ("ok" if memo == true else "STALE")
+            effective = true if memo is None else memo
+            # entries that will actually be served: none if the cache is flushed on next access
+            live = g._cache.id_current == effective
+            private = (
+                tuple(sorted((str(k), str(v)) for k, v in f._cache.items())),
+                tuple(sorted(str(k) for k in g._cache.cache.keys())) if live else (),
+                memo_state,
+            )
+        except AttributeError:
+            private = ("generic", harness.short_hash(repr(harness.generic_state(g, depth=4))))
         return (
             tuple(sorted(f.parents.items(), key=str)),
             edges,
             tuple((k, v.get("geometry")) for k, v in f.node_data.items()),
-            tuple(sorted((str(k), str(v)) for k, v in f._cache.items())),
-            tuple(sorted(str(k) for k in g._cache.cache.keys())) if live else (),
-            memo_state,
+            private,
             g.base_frame,
             # the model side (so that impl-equal / model-different states are not merged)
             tuple(sorted(ref.parent.items(), key=str)),
